@@ -255,4 +255,14 @@ theorem bytewise_joinNl (st : St) (first : List Byte) (rest : List (List Byte))
     simp only [List.nil_append] at this
     rw [this]
 
+theorem bytewise_off (st : St) (bs : List Byte) : (bytewise st bs).1.off = st.off + bs.length := by
+  unfold bytewise
+  induction bs generalizing st with
+  | nil => simp
+  | cons b bs ih =>
+    simp only [List.foldl_cons]
+    by_cases hb : b = 10
+    · simp only [pushByte, hb, if_true]; rw [foldl_log]; simp only; rw [ih]; simp; omega
+    · simp only [pushByte, hb, if_false]; rw [ih]; simp; omega
+
 end LB
